@@ -21,6 +21,9 @@ def configs(tier):
     out.append(('pending opens min=%d max=%d qlen=%d' % (mn, mx, ql),
                 {'min': mn, 'max': mx, 'qlen': ql, 'ops': ['Req', 'Done', 'Timeout', 'Open'], 'max_active': mx + ql + 1,
                  'max_reqs': 4 if tier == 'quick' else 5, 'open_mode': 'pending', 'ok_first': 1}, 7 if tier == 'quick' else 8))
+  # a pool that leaves max_queue_len at its default, built after another pool of the process was given a queue length of 1
+  out.append(('default queue length, after another pool was configured min=1 max=1',
+              {'min': 1, 'max': 1, 'qlen': 2147483647, 'ops': ['Req', 'Done', 'Timeout'], 'max_active': 5, 'max_reqs': 5, 'stock_after_prior': True}, 7))
   # requests that arrive while the pool's own Open() is still waiting for its first (warm-up) connection
   for (mn, mx, ql) in ([(1, 1, 2)] if tier == 'quick' else [(1, 1, 2), (1, 2, 2), (0, 1, 2)]):
     out.append(('warm-up connection still opening min=%d max=%d qlen=%d' % (mn, mx, ql),
